@@ -35,6 +35,10 @@ fn isp(u: int) -> bool { return (> u 0) }
 shadow isp { assert (isp 1) }
 fn b0() -> bool { return false }
 shadow b0 { assert (not (b0)) }
+fn mkp(u: int) -> P { return P { x: u, y: (* u 2), ok: (> u 0) } }
+shadow mkp { assert (== (mkp 1).x 1) }
+fn pair(u: int, v: int) -> (int, int) { return (u, v) }
+shadow pair { assert (== (pair 1 2).0 1) }
 """
 
 MAIN_HEAD = """fn main() -> int {
@@ -61,9 +65,53 @@ def ty_of(e):
         return "int" if e[1] == "-" else "bool"
     if k == "bin":
         return "int" if e[1] in ARITH else "bool"
-    if k in ("call", "field"):
+    if k in ("call", "field", "tidx"):
         return e[3]
     raise ValueError(k)
+
+
+def postfix_on_call(rng, ty, depth=0):
+    """a postfix form (field access, tuple index) applied to a call in parentheses: `(mkp e).x`, `(pair a b).1`"""
+    arg = lambda: gen(rng, "int", depth) if depth > 0 else ("var", rng.choice(INT_VARS), "int")
+    if ty == "bool":
+        return ("field", ("call", "mkp", [arg()], "P"), "ok", "bool")
+    if rng.random() < 0.5:
+        return ("field", ("call", "mkp", [arg()], "P"), rng.choice(INT_FIELDS), "int")
+    return ("tidx", ("call", "pair", [arg(), arg()], "T"), rng.choice([0, 1]), "int")
+
+
+def postfix_positions(rng):
+    """postfix-on-call operands in every operand position of every operator"""
+    out = []
+    for op in BINOPS:
+        ins, _ = in_ty(op)
+        t = ins[0]
+        leaf = lambda: leaves_for(t, rng)
+        P = lambda: postfix_on_call(rng, t)
+        rhs = ("num", 3) if op in ("/", "%") else None
+        out.append(("bin", op, leaf(), rhs or P()))                 # right operand
+        out.append(("bin", op, P(), rhs or leaf()))                 # left operand
+        out.append(("bin", op, P(), rhs or P()))                    # both
+        if op in ARITH or op in LOGIC:
+            out.append(("bin", op, ("bin", op, leaf(), rhs or P()), rhs or P()))   # chain
+    out.append(("un", "-", postfix_on_call(rng, "int")))
+    out.append(("un", "not", postfix_on_call(rng, "bool")))
+    out.append(("bin", "+", ("var", "a", "int"), ("un", "-", postfix_on_call(rng, "int"))))
+    out.append(("bin", "and", ("var", "p", "bool"), ("un", "not", postfix_on_call(rng, "bool"))))
+    out.append(("call", "f2", [postfix_on_call(rng, "int"), postfix_on_call(rng, "int")], "int"))
+    return out
+
+
+def same_op_run(rng, op, n):
+    """left-nested run of n identical operators: t0 op t1 op ... op tn"""
+    ins, _ = in_ty(op)
+    t = "bool" if op in ("==", "!=", "and", "or") else "int"
+    leaf = lambda: (("num", rng.choice([1, 2, 3, 7])) if op in ("/", "%") else
+                    (("var", rng.choice(BOOL_VARS), "bool") if t == "bool" else ("var", rng.choice(INT_VARS), "int")))
+    e = ("var", "p", "bool") if t == "bool" else ("var", "a", "int")
+    for _ in range(n):
+        e = ("bin", op, e, leaf())
+    return e
 
 
 def gen(rng, ty, depth):
@@ -75,15 +123,19 @@ def gen(rng, ty, depth):
                 return ("var", rng.choice(INT_VARS), "int")
             if c < 0.75:
                 return ("num", rng.choice([0, 1, 2, 3, 7, 10, 255, 1000, 9223372036854775807, -1, -7]))
-            if c < 0.9:
+            if c < 0.85:
                 return ("field", ("var", rng.choice(STRUCT_VARS), "P"), rng.choice(INT_FIELDS), "int")
+            if c < 0.93:
+                return postfix_on_call(rng, "int")
             return ("call", "g0", [], "int")
         if c < 0.5:
             return ("var", rng.choice(BOOL_VARS), "bool")
         if c < 0.75:
             return ("bool", rng.random() < 0.5)
-        if c < 0.9:
+        if c < 0.85:
             return ("field", ("var", rng.choice(STRUCT_VARS), "P"), "ok", "bool")
+        if c < 0.93:
+            return postfix_on_call(rng, "bool")
         return ("call", "b0", [], "bool")
     c = rng.random()
     if ty == "int":
@@ -129,6 +181,8 @@ def prefix(e):
         return "(" + " ".join([e[1]] + [prefix(a) for a in e[2]]) + ")"
     if k == "field":
         return prefix_obj(e[1]) + "." + e[2]
+    if k == "tidx":
+        return prefix_obj(e[1]) + "." + str(e[2])
     raise ValueError(k)
 
 
@@ -167,6 +221,8 @@ def operand(e):
         if o[0] in ("un", "bin"):
             return prefix(o) + "." + e[2] if (o[0] == "un" or starts_with_operator(o)) else "(" + infix(o) + ")." + e[2]
         return operand(o) + "." + e[2]
+    if k == "tidx":
+        return operand(e[1]) + "." + str(e[2])
     raise ValueError(k)
 
 
